@@ -1064,6 +1064,19 @@ class Variable(CanBehaveLikeAVariable[T]):
             self._domain_source_ = None
             self._domain_ = HashedIterable()
             self._domain_is_the_registry_ = False
+        elif self._domain_source_ is not None and isinstance(self._domain_source_.domain, SymbolicExpression):
+            # a domain given as an expression is what the expression evaluates to when the query is evaluated, not what it
+            # evaluated to (as far as it was pulled) the first time: the expression is not below this node in the graph,
+            # so it is reset from here, and evaluated anew when the domain is next read.
+            self._domain_source_.domain._reset_cache_()
+            self._domain_ = HashedIterable()
+            self._update_domain_(self._domain_source_.domain)
+
+    def _clear_only_my_result_caches_(self) -> None:
+        super()._clear_only_my_result_caches_()
+        if self._domain_source_ is not None and isinstance(self._domain_source_.domain, SymbolicExpression):
+            # (an evaluation that was abandoned also abandoned the evaluation of the expression its domain is)
+            self._domain_source_.domain._clear_result_caches_()
 
     def _update_domain_and_kwargs_expression_(self):
         self._domain_source_ = From(self._cache_values_)
